@@ -83,7 +83,14 @@ def render(rng, model, fancy=True):
             pre = rng.choice(["", "", " ", "\t", "  "]) if fancy else ""
             post = rng.choice(["", "", " ", "\t ", "  "]) if fancy else ""
             trail = rng.choice(["", "", " ", "\t", "  \t"]) if fancy else ""
-            L.append(ind + k + pre + "=" + post + render_value(rng, v, fancy) + trail)
+            line = ind + k + pre + "=" + post + render_value(rng, v, fancy) + trail
+            if fancy and rng.random() < 0.1:
+                # the value's last line ends in a backslash and the next line is empty or blank (Spec/Layout.v, ELTrail)
+                line += "\\" + rng.choice(["", "", " ", "  "]) + "\n"
+                for _ in range(rng.choice([0, 0, 1])):
+                    line += comment_line(rng) + "\n"
+                line += rng.choice(["", "", "", " ", "\t "])
+            L.append(line)
         if fancy and rng.random() < 0.3:
             L.append("")
     text = "\n".join(L)
